@@ -145,6 +145,10 @@ PROPS = {
             {"name": "wr", "module": "wr", "quick": 1500, "thorough": 20000, "profiles": ["debug", "release"], "oracle_prefix": "o_wr"},
             {"name": "tx_digits", "module": "tx", "quick": 2000, "thorough": 20000, "profiles": ["debug", "release"], "args": {"kind": "digits"},
              "oracle_prefix": "o_tx"},
+            # thorough tier only: the same kinds of histories on the real code under Miri (supporting dynamic check)
+            {"name": "miri_rd", "module": "rd", "quick": 0, "thorough": 60, "kind": "miri", "args": {"panics": True}},
+            {"name": "miri_wr", "module": "wr", "quick": 0, "thorough": 12, "kind": "miri"},
+            {"name": "miri_tx", "module": "tx", "quick": 0, "thorough": 40, "kind": "miri", "args": {"kind": "digits"}},
         ],
         "rule": "reader histories extended with advance/advance_with_buf beyond the buffered length (panic caught, history "
                 "continues) and sources claiming more bytes than the slice; writer histories with buffer-boundary integers; "
